@@ -23,7 +23,7 @@ MANIFEST = {
              "fractional day <= 1e-9) and (e+x)-e = x <= 1e-8 by kernel evaluation on stated grids; tuple/list/date/copy "
              "forms and all comparison/arithmetic operators proved symbolically for ALL argument values in EVERY "
              "FloatOps instance (binary64 and ideal reals); bit-exact correspondence model vs implementation every run; "
-             "boundary-heavy search oracle of every clause (in-place operators are searched only)."),
+             "boundary-heavy search oracle of every clause."),
     "technique": ("kernel computation over the full day range + grids (vm_compute reflection), lia/induction on the calendar "
                   "spec, symbolic evaluation of the generated text valid for every FloatOps instance, differential "
                   "correspondence, property oracle search with +-1 ulp probes"),
@@ -44,9 +44,9 @@ CLAUSES = {
     "fractional day versus h/m/s within 1e-9 day": "proved [B64, same grid]; elsewhere unproved (searched)",
     "month names": "proved in C01 [B64, every year]; searched here",
     "<, <=, >, >= are the comparisons of the JDEs; == is |diff| < 1e-10; != = not ==; TypeError for other operands": "proved [every FloatOps instance, all floats / all reals, symbolic] + [ideal: iff statements]",
-    "Epoch - Epoch = difference of JDEs; Epoch +/- x = Epoch(jde +/- x); x + Epoch = Epoch + x": "proved [every FloatOps instance, all values, symbolic]",
+    "Epoch - Epoch = difference of JDEs; Epoch +/- x = Epoch(jde +/- x); x + Epoch = Epoch + x; TypeError for other operands": "proved [every FloatOps instance, all values, symbolic]",
     "(e + x) - e = x and e - (e - x) = x to 1e-8 day": "proved [B64, grid 175 years x 12 x 3 fractions x 16 offsets up to +-1e6]; [ideal] reduced to Epoch(j) = j, which is unproved in the ideal instance (needs the calendar algorithm for all reals); searched",
-    "in-place forms += and -= agree with + and -": "unproved (searched): inside the class `self + b` dispatches to __add__ through a cycle __init__ -> set -> += -> __iadd__ that the translator cuts (model value Unsupported); the oracle checks them on the implementation",
+    "in-place forms += and -= return what + and - return": "proved [every FloatOps instance, float and int offsets, symbolic] + [B64, arithmetic grid]",
     "__hash__": "unproved: not translated (hash of a float); not searched",
 }
 
@@ -159,8 +159,10 @@ def cases(rng, tier):
             cs.append("(Epoch(%r) + %r).jde()" % (a, x))
             cs.append("(%r + Epoch(%r)).jde()" % (x, a))
             cs.append("(Epoch(%r) + %r) - Epoch(%r)" % (a, x, a))
+            cs.append("Epoch(%r).__iadd__(%r).jde()" % (a, x))
         if 0 <= a - x <= JMAX:
             cs.append("(Epoch(%r) - %r).jde()" % (a, x))
+            cs.append("Epoch(%r).__isub__(%r).jde()" % (a, x))
         b = rng.choice([a, nxt(a), nxt(a, -1), a + 5e-11, a + 2e-10, rng.choice(js)])
         op = rng.choice(["<", "<=", ">", ">=", "==", "!="])
         cs.append("Epoch(%r) %s Epoch(%r)" % (a, op, b))
@@ -170,7 +172,9 @@ def cases(rng, tier):
            "Epoch.check_input_date(2000, 1)", "Epoch.check_input_date((2000, 1))", "Epoch.check_input_date('x')",
            "float(Epoch(2451545.25))", "int(Epoch(2451545.75))", "Epoch(2451545.25)()",
            "Epoch(2299160.5).get_full_date()", "Epoch(2299160.4999999995).get_full_date()",
-           "Epoch(1582, 10, 4, 23, 59, 59.999).jde()", "Epoch(1582, 10, 15).jde()", "Epoch(1582, 10, 10)"]
+           "Epoch(1582, 10, 4, 23, 59, 59.999).jde()", "Epoch(2451545.0).__iadd__('a')", "Epoch(2451545.0).__isub__(None)",
+           "Epoch(2000, None, 1)", "Epoch(2000, [1], 1)", "Epoch.check_input_date(2000, (1,), 1)",
+           "Epoch.check_input_date(2000, 1, 1, 6, 30, 15.5).jde()", "Epoch.check_input_date([2000, 1, 1, 6, 30, 15.5]).jde()", "Epoch(1582, 10, 15).jde()", "Epoch(1582, 10, 10)"]
     return cs
 
 
